@@ -56,8 +56,13 @@ def main():
                 print('%-40s STALE (%d matches)' % (mu['id'],
                                                    src.count(mu['old'])))
                 continue
+            src = src.replace(mu['old'], mu['new'])
+            for old2, new2 in mu.get('extra', []):
+                if src.count(old2) != 1:
+                    print('%-40s STALE extra' % mu['id'])
+                src = src.replace(old2, new2)
             with open(path, 'w') as f:
-                f.write(src.replace(mu['old'], mu['new']))
+                f.write(src)
             tests = 'skipped'
             if not args.no_tests:
                 r = sh(['/venv/bin/python', '-m', 'pytest', '-q', '-x',
